@@ -17,6 +17,8 @@ pub const LANGS: [&str; 5] = ["plaintext", "markdown", "typst", "html", "rust"];
 #[derive(Debug, Clone, Serialize, Deserialize, PartialEq, Eq, Hash)]
 pub enum Op {
     SetConfig(ConfigSpec),
+    /// flip one rule that fires on one of the clauses (so that the toggle matters for cached clauses)
+    ToggleFiring { clause: u8, which: u16 },
     /// lint pool document `doc` in language LANGS[lang]
     Lint { doc: u16, lang: u8 },
 }
@@ -52,6 +54,29 @@ pub fn pool(clauses: &[String]) -> Vec<String> {
     out
 }
 
+/// rules (configuration keys) that produce a lint on `clause` when enabled alone; cached per process
+fn firing_rules(clause: &str) -> Vec<String> {
+    use std::collections::HashMap;
+    use std::sync::{Mutex, OnceLock};
+    static CACHE: OnceLock<Mutex<HashMap<String, Vec<String>>>> = OnceLock::new();
+    let cache = CACHE.get_or_init(|| Mutex::new(HashMap::new()));
+    if let Some(v) = cache.lock().unwrap().get(clause) {
+        return v.clone();
+    }
+    let dict = FstDictionary::curated();
+    let doc = Document::new(clause, &harper_core::parsers::PlainEnglish, &dict);
+    let mut group = LintGroup::new_curated(dict, DIALECTS[0]);
+    let mut out = vec![];
+    for k in &g::harvest().rule_keys {
+        group.config = ConfigSpec::only(&[k.as_str()]).build();
+        if crate::core::catch(|| !group.lint(&doc).is_empty()).unwrap_or(false) {
+            out.push(k.clone());
+        }
+    }
+    cache.lock().unwrap().insert(clause.to_string(), out.clone());
+    out
+}
+
 fn make_doc(text: &str, lang: &str) -> Option<(Document, Arc<dyn Dictionary>)> {
     let source: Vec<char> = text.chars().collect();
     let (parser, dict) = Frontend::of(lang).build(&source)?;
@@ -81,12 +106,29 @@ pub fn test_sequence(c: &SeqCase, ctx: &mut CaseCtx) -> Result<(), String> {
     let mut cfg_version = 0u64;
     let mut hit_after_change = false;
     let mut hit_other_lang = false;
+    let mut toggled_firing = false;
     for (step, op) in c.ops.iter().enumerate() {
         match op {
             Op::SetConfig(spec) => {
                 current = spec.clone();
                 long_lived.config = current.build();
                 cfg_version += 1;
+            }
+            Op::ToggleFiring { clause, which } => {
+                if c.clauses.is_empty() {
+                    continue;
+                }
+                let cl = &c.clauses[*clause as usize % c.clauses.len()];
+                let rules = firing_rules(cl);
+                if rules.is_empty() {
+                    continue;
+                }
+                let key = rules[crate::core::pick_idx(*which, rules.len())].clone();
+                let now = current.build().is_rule_enabled(&key);
+                current.overlay.push((key, Some(!now)));
+                long_lived.config = current.build();
+                cfg_version += 1;
+                toggled_firing = true;
             }
             Op::Lint { doc, lang } => {
                 let text = &docs[crate::core::pick_idx(*doc, docs.len())];
@@ -126,6 +168,7 @@ pub fn test_sequence(c: &SeqCase, ctx: &mut CaseCtx) -> Result<(), String> {
         }
     }
     ctx.class_if(hit_after_change, "cache_hit_after_config_change");
+    ctx.class_if(toggled_firing && hit_after_change, "firing_rule_toggled_between_hits");
     ctx.class_if(hit_other_lang, "cache_hit_in_other_language");
     if hit_after_change || hit_other_lang {
         ctx.nontrivial(c);
@@ -149,7 +192,8 @@ pub fn seq_strategy(max_ops: usize) -> BoxedStrategy<SeqCase> {
         proptest::collection::vec(
             prop_oneof![
                 1 => g::config_spec().prop_map(Op::SetConfig),
-                4 => (any::<u16>(), 0u8..5).prop_map(|(doc, lang)| Op::Lint { doc, lang }),
+                2 => (any::<u8>(), any::<u16>()).prop_map(|(clause, which)| Op::ToggleFiring { clause, which }),
+                6 => (any::<u16>(), 0u8..5).prop_map(|(doc, lang)| Op::Lint { doc, lang }),
             ],
             1..max_ops,
         ),
@@ -321,6 +365,7 @@ pub fn run(run: &mut Run) {
     run.prop("op_sequences", n, || seq_strategy(40), test_sequence);
     run.require_class("op_sequences", "cache_hit_after_config_change", (n / 4) as u64);
     run.require_class("op_sequences", "cache_hit_in_other_language", (n / 4) as u64);
+    run.require_class("op_sequences", "firing_rule_toggled_between_hits", (n / 4) as u64);
 
     let n = run.n(60, 2_000);
     run.prop(
